@@ -205,7 +205,7 @@ pub fn run(ctx: &Ctx) {
     ctx.assume("reference register model written from the property text (bit scan), not from the implementation's leading_zeros formula");
     ctx.run_regressions(&[&C17]);
     let tier = ctx.tier;
-    ctx.run_random(&C17, tier.pick(8_000, 300_000), move || strategy(tier));
+    ctx.run_random(&C17, tier.pick(400_000, 6_000_000), move || strategy(tier));
     ctx.require_class("registers_model", "register_with_two_ranks", 0.2);
     ctx.require_class("registers_model", "upper_bits_zero", 0.05);
 }
